@@ -9,10 +9,16 @@
 EXTENDS Integers, Sequences, FiniteSets, TLC
 
 CONSTANTS Procs,      \* mocker processes
-          PageOf      \* [Procs -> page] page of each mocker's target
+          PageOf,     \* [Procs -> page] page of each mocker's target
+          RDepth      \* nesting depth of the read side of memoryAccessLock in one scan (1 in goom: RawRead never nests)
 
-VARIABLES lockP, lockM, entry, perm, pcs, rounds
-vars == <<lockP, lockM, entry, perm, pcs, rounds>>
+(* memoryAccessLock is a sync.RWMutex.  Its read side is taken by every RawRead: by the instruction scans inside a
+   P-section (GetFuncSize, the trampoline builder) and, for wrapper targets (generic functions, method values),
+   by GetInnerFunc BEFORE the P-section.  A waiting writer blocks new readers (wpend), which is why the read side must
+   never be nested: with RDepth = 2 the model deadlocks (self-test of C11). *)
+VARIABLES lockP, lockM, entry, perm, pcs, rounds, wpend, rd, rprog
+vars == <<lockP, lockM, entry, perm, pcs, rounds, wpend, rd, rprog>>
+rwvars == <<wpend, rd, rprog>>
 Pages == {PageOf[p] : p \in Procs}
 
 Init == /\ lockP = 0 /\ lockM = 0
@@ -20,38 +26,59 @@ Init == /\ lockP = 0 /\ lockM = 0
         /\ perm = [g \in Pages |-> {"r", "x"}]
         /\ pcs = [p \in Procs |-> "idle"]
         /\ rounds = [p \in Procs |-> 0]
+        /\ wpend = 0 /\ rd = [p \in Procs |-> 0] /\ rprog = [p \in Procs |-> <<>>]
+
+\* one scan of text: RDepth nested RLocks, then as many RUnlocks
+ScanProg == [i \in 1..(2 * RDepth) |-> IF i <= RDepth THEN "L" ELSE "U"]
+InP(p) == pcs[p] \in {"P:replace", "P:apply", "P:unpatch"}
+RStart(p) == /\ (pcs[p] = "idle" \/ InP(p)) /\ wpend # p /\ rprog[p] = <<>> /\ rprog' = [rprog EXCEPT ![p] = ScanProg]
+             /\ UNCHANGED <<lockP, lockM, entry, perm, pcs, rounds, wpend, rd>>
+RStep(p) == /\ rprog[p] # <<>>
+            /\ IF Head(rprog[p]) = "L" THEN lockM = 0 /\ wpend = 0 /\ rd' = [rd EXCEPT ![p] = @ + 1]
+                                       ELSE rd' = [rd EXCEPT ![p] = @ - 1]
+            /\ rprog' = [rprog EXCEPT ![p] = Tail(@)]
+            /\ UNCHANGED <<lockP, lockM, entry, perm, pcs, rounds, wpend>>
+Readers == {p \in Procs : rd[p] > 0}
 
 \* P-section enter/leave (kind: "replace" | "apply" | "unpatch")
-PLock(p, kind) == /\ pcs[p] = "idle" /\ lockP = 0 /\ lockP' = p /\ pcs' = [pcs EXCEPT ![p] = "P:" \o kind]
-                  /\ UNCHANGED <<lockM, entry, perm, rounds>>
-PUnlock(p) == /\ lockP = p /\ pcs[p] \in {"P:replace", "P:apply", "P:unpatch"} /\ lockP' = 0
+PLock(p, kind) == /\ pcs[p] = "idle" /\ rprog[p] = <<>> /\ lockP = 0 /\ lockP' = p /\ pcs' = [pcs EXCEPT ![p] = "P:" \o kind]
+                  /\ UNCHANGED <<lockM, entry, perm, rounds, rwvars>>
+PUnlock(p) == /\ lockP = p /\ rprog[p] = <<>> /\ wpend # p /\ pcs[p] \in {"P:replace", "P:apply", "P:unpatch"} /\ lockP' = 0
               /\ pcs' = [pcs EXCEPT ![p] = "idle"] /\ rounds' = [rounds EXCEPT ![p] = @ + 1]
-              /\ UNCHANGED <<lockM, entry, perm>>
-\* M-section inside a P-section
-MLock(p) == /\ pcs[p] \in {"P:replace", "P:apply", "P:unpatch"} /\ lockM = 0 /\ lockM' = p
-            /\ pcs' = [pcs EXCEPT ![p] = "M:locked:" \o pcs[p]] /\ UNCHANGED <<lockP, entry, perm, rounds>>
+              /\ UNCHANGED <<lockM, entry, perm, rwvars>>
+\* M-section inside a P-section.  Lock() of the RWMutex is two steps: announce (new readers now block), then enter
+\* once the readers have left; MLock is the two in one for histories without readers in flight (Trace_Conc).
+MWant(p) == /\ InP(p) /\ rprog[p] = <<>> /\ lockM = 0 /\ wpend = 0 /\ wpend' = p
+            /\ UNCHANGED <<lockP, lockM, entry, perm, pcs, rounds, rd, rprog>>
+MEnter(p) == /\ wpend = p /\ InP(p) /\ Readers = {} /\ lockM' = p /\ wpend' = 0
+             /\ pcs' = [pcs EXCEPT ![p] = "M:locked:" \o pcs[p]] /\ UNCHANGED <<lockP, entry, perm, rounds, rd, rprog>>
+MLock(p) == /\ InP(p) /\ rprog[p] = <<>> /\ lockM = 0 /\ wpend = 0 /\ Readers = {} /\ lockM' = p
+            /\ pcs' = [pcs EXCEPT ![p] = "M:locked:" \o pcs[p]] /\ UNCHANGED <<lockP, entry, perm, rounds, rwvars>>
 Kind(s) == IF s \in {"M:locked:P:replace", "M:rwx:P:replace", "M:copied:P:replace", "M:rx:P:replace"} THEN "P:replace"
            ELSE IF s \in {"M:locked:P:apply", "M:rwx:P:apply", "M:copied:P:apply", "M:rx:P:apply"} THEN "P:apply" ELSE "P:unpatch"
 Phase(s, ph) == s = "M:" \o ph \o ":" \o Kind(s)
 MRwx(p) == /\ lockM = p /\ Phase(pcs[p], "locked")
            /\ perm' = [perm EXCEPT ![PageOf[p]] = {"r", "w", "x"}]
-           /\ pcs' = [pcs EXCEPT ![p] = "M:rwx:" \o Kind(pcs[p])] /\ UNCHANGED <<lockP, lockM, entry, rounds>>
+           /\ pcs' = [pcs EXCEPT ![p] = "M:rwx:" \o Kind(pcs[p])] /\ UNCHANGED <<lockP, lockM, entry, rounds, rwvars>>
 MCopy(p) == /\ lockM = p /\ Phase(pcs[p], "rwx") /\ "w" \in perm[PageOf[p]]
             /\ entry' = [entry EXCEPT ![p] = IF Kind(pcs[p]) = "P:apply" THEN "J" ELSE "P"]
-            /\ pcs' = [pcs EXCEPT ![p] = "M:copied:" \o Kind(pcs[p])] /\ UNCHANGED <<lockP, lockM, perm, rounds>>
+            /\ pcs' = [pcs EXCEPT ![p] = "M:copied:" \o Kind(pcs[p])] /\ UNCHANGED <<lockP, lockM, perm, rounds, rwvars>>
 MRx(p) == /\ lockM = p /\ Phase(pcs[p], "copied")
           /\ perm' = [perm EXCEPT ![PageOf[p]] = {"r", "x"}]
-          /\ pcs' = [pcs EXCEPT ![p] = "M:rx:" \o Kind(pcs[p])] /\ UNCHANGED <<lockP, lockM, entry, rounds>>
+          /\ pcs' = [pcs EXCEPT ![p] = "M:rx:" \o Kind(pcs[p])] /\ UNCHANGED <<lockP, lockM, entry, rounds, rwvars>>
 MUnlock(p) == /\ lockM = p /\ Phase(pcs[p], "rx") /\ lockM' = 0
-              /\ pcs' = [pcs EXCEPT ![p] = Kind(pcs[p])] /\ UNCHANGED <<lockP, entry, perm, rounds>>
+              /\ pcs' = [pcs EXCEPT ![p] = Kind(pcs[p])] /\ UNCHANGED <<lockP, entry, perm, rounds, rwvars>>
 
-Next == \E p \in Procs : (\E k \in {"replace", "apply", "unpatch"} : PLock(p, k)) \/ PUnlock(p) \/ MLock(p) \/ MRwx(p) \/ MCopy(p) \/ MRx(p) \/ MUnlock(p)
+Next == \E p \in Procs : \/ (\E k \in {"replace", "apply", "unpatch"} : PLock(p, k)) \/ PUnlock(p)
+                         \/ MWant(p) \/ MEnter(p) \/ MRwx(p) \/ MCopy(p) \/ MRx(p) \/ MUnlock(p)
+                         \/ RStart(p) \/ RStep(p)
 Spec == Init /\ [][Next]_vars
 
 MutexP == Cardinality({p \in Procs : pcs[p] # "idle"}) <= 1
 MutexM == Cardinality({p \in Procs : lockM = p}) <= 1
 XAlways == \A g \in Pages : "x" \in perm[g]
 WOnlyInM == \A g \in Pages : "w" \in perm[g] => lockM # 0
+NoReadWhileWrite == lockM # 0 => Readers = {}
 Quiescent == (\A p \in Procs : pcs[p] = "idle") => \A g \in Pages : perm[g] = {"r", "x"}
 Bound == \A p \in Procs : rounds[p] <= 2
 =============================================================================
